@@ -60,6 +60,9 @@ pub fn gen(rng: &mut Rng, tier: Tier, idx: u64) -> Case {
     let (ws, tail) = gen_write_script(rng, len, 0, ep);
     c.write_script = ws;
     c.write_tail = tail;
+    // n[0]: a history before the measured encode: every part is first encoded into a sink that
+    // fails after n[0] permille of its bytes (-1: none)
+    c.n = vec![if rng.chance(1, 3) { rng.below(1000) as i64 } else { -1 }];
     c
 }
 
@@ -91,6 +94,24 @@ fn check_packet<C: Codec>(
     trace: bool,
     out: &mut RunOut,
 ) {
+    // an earlier encode on the same thread that ended in a write error must leave nothing behind
+    if let Some(&pm) = c.n.first() {
+        if pm >= 0 {
+            for part in C::parts(p) {
+                let Ok(d) = guarded(|| part.enc.len()) else { continue };
+                if d == 0 {
+                    continue;
+                }
+                let at = (d as u64 * pm as u64 / 1000) as usize;
+                let core = Core::new(trace);
+                let mut sink = SimSink(SimWriter::new(&core, c.write_script.clone()).with_faults(&[(at.min(d - 1), Fault::Err(3))]));
+                sink.0.tail = c.write_tail;
+                let _ = guarded(AssertUnwindSafe(|| part.enc.enc_sink(&mut sink)));
+                out.absorb_core(&core, trace);
+                out.probe("failed-encode-before");
+            }
+        }
+    }
     let declared = match guarded(|| C::encode_len(p)) {
         Ok(Ok(n)) => Some(n),
         Ok(Err(e)) => {
